@@ -203,4 +203,110 @@ theorem parseI64_render (n : Int) (h : -2 ^ 63 ≤ n ∧ n < 2 ^ 63) : parseI64 
     left
     exact ⟨rfl, by rw [h3]; omega⟩
 
+/-! ### `str::trim` -/
+
+theorem wsPrefix_le (s : Text) : wsPrefix s ≤ s.length := by
+  unfold wsPrefix
+  split
+  · split
+    · simp
+    · split <;> (try split) <;> simp
+  · simp
+
+theorem trimStartFuel_suffix (fuel : Nat) : ∀ s : Text, ∃ l, s = l ++ trimStartFuel fuel s := by
+  induction fuel with
+  | zero => intro s; exact ⟨[], rfl⟩
+  | succ n ih =>
+    intro s
+    simp only [trimStartFuel]
+    split
+    · exact ⟨[], rfl⟩
+    · obtain ⟨l, hl⟩ := ih (s.drop (wsPrefix s))
+      refine ⟨s.take (wsPrefix s) ++ l, ?_⟩
+      rw [List.append_assoc, ← hl, List.take_append_drop]
+
+theorem trimStartFuel_done (fuel : Nat) : ∀ s : Text, s.length ≤ fuel → wsPrefix (trimStartFuel fuel s) = 0 := by
+  induction fuel with
+  | zero =>
+    intro s h
+    have : s = [] := List.length_eq_zero_iff.1 (Nat.le_zero.1 h)
+    subst this
+    rfl
+  | succ n ih =>
+    intro s h
+    simp only [trimStartFuel]
+    split
+    · rename_i hk; simpa using hk
+    · rename_i hk
+      apply ih
+      have h1 := wsPrefix_le s
+      have h2 : wsPrefix s ≠ 0 := by simpa using hk
+      simp only [List.length_drop]
+      omega
+
+/-- `trim_start` removes a prefix and stops at the first non-whitespace character -/
+theorem trimStart_spec (s : Text) : (∃ l, s = l ++ trimStart s) ∧ wsPrefix (trimStart s) = 0 :=
+  ⟨trimStartFuel_suffix _ s, trimStartFuel_done _ s (Nat.le_refl _)⟩
+
+
+theorem wsSuffixRev_le (r : Text) : wsSuffixRev r ≤ r.length := by
+  unfold wsSuffixRev
+  split
+  · simp
+  · split
+    · simp
+    · split <;> (try split) <;> simp
+
+theorem trimEndRevFuel_suffix (fuel : Nat) : ∀ r : Text, ∃ l, r = l ++ trimEndRevFuel fuel r := by
+  induction fuel with
+  | zero => intro r; exact ⟨[], rfl⟩
+  | succ n ih =>
+    intro r
+    simp only [trimEndRevFuel]
+    split
+    · exact ⟨[], rfl⟩
+    · obtain ⟨l, hl⟩ := ih (r.drop (wsSuffixRev r))
+      refine ⟨r.take (wsSuffixRev r) ++ l, ?_⟩
+      rw [List.append_assoc, ← hl, List.take_append_drop]
+
+theorem trimEndRevFuel_done (fuel : Nat) : ∀ r : Text, r.length ≤ fuel → wsSuffixRev (trimEndRevFuel fuel r) = 0 := by
+  induction fuel with
+  | zero =>
+    intro r h
+    have : r = [] := List.length_eq_zero_iff.1 (Nat.le_zero.1 h)
+    subst this
+    rfl
+  | succ n ih =>
+    intro r h
+    simp only [trimEndRevFuel]
+    split
+    · rename_i hk; simpa using hk
+    · rename_i hk
+      apply ih
+      have h1 := wsSuffixRev_le r
+      have h2 : wsSuffixRev r ≠ 0 := by simpa using hk
+      simp only [List.length_drop]
+      omega
+
+/-- `trim_end` removes a suffix and stops at the last non-whitespace character -/
+theorem trimEnd_spec (s : Text) : (∃ r, s = trimEnd s ++ r) ∧ wsSuffixRev (trimEnd s).reverse = 0 := by
+  unfold trimEnd
+  constructor
+  · obtain ⟨l, hl⟩ := trimEndRevFuel_suffix s.length s.reverse
+    refine ⟨l.reverse, ?_⟩
+    have := congrArg List.reverse hl
+    simpa using this
+  · rw [List.reverse_reverse]
+    exact trimEndRevFuel_done _ _ (by simp)
+
+/-- `trim`: a contiguous piece of the text with whitespace-free ends -/
+theorem trim_spec (s : Text) :
+    (∃ l r, s = l ++ trim s ++ r) ∧ wsSuffixRev (trim s).reverse = 0 ∧
+    (∃ r, trimStart s = trim s ++ r) ∧ wsPrefix (trimStart s) = 0 := by
+  unfold trim
+  obtain ⟨⟨l, hl⟩, h0⟩ := trimStart_spec s
+  obtain ⟨⟨r, hr⟩, h1⟩ := trimEnd_spec (trimStart s)
+  refine ⟨⟨l, r, ?_⟩, h1, ⟨r, hr⟩, h0⟩
+  rw [List.append_assoc, ← hr, ← hl]
+
 end Sqlgrep.Lit
